@@ -528,3 +528,114 @@ def dict_data(rk, k0, k1, v0, v1, n):
                  pre=["not isinstance(d, str) or len(d) <= 2", "not isinstance(d, int) or -4 <= d <= 3"],
                  timeout=tmo, family=fam, bounds="datum: None|bool|int in [-4,3] (stub code)|str len<=2; lax (str() accepts every datum)")
     return m
+
+
+DUMP_SETUP = '''
+class PA:
+    def __init__(self, v): self.v = v
+class PB(PA): pass
+class PC(PB): pass
+class PD(PA): pass
+class Zeta:
+    def __init__(self, v): self.v = v
+class Eta(Zeta): pass
+class EtaSub(Eta): pass
+class Lone:
+    def __init__(self, v): self.v = v
+def bad_stub_dumper(obj):
+    if obj.n == -9: raise StubUserBug("dumper bug")
+    return obj.n
+class KStub:
+    def __init__(self, k): self.k = k
+    def __eq__(self, o): return type(o) is KStub and o.k == self.k
+    def __hash__(self): return self.k * 31 + 5
+def sel_codes(n, c0, c1, c2):
+    n = pick(n, 4)
+    return [pick(c, 7) - 4 for c in [c0, c1, c2][:n]]
+DRECIPE = [dumper(Stub, bad_stub_dumper), dumper(KStub, lambda k: k.k + 7),
+           dumper(PA, lambda o: ("PA", o.v)), dumper(PB, lambda o: ("PB", o.v)), dumper(PD, lambda o: ("PD", o.v)),
+           dumper(Zeta, lambda o: ("Zeta", o.v)), dumper(Eta, lambda o: ("Eta", o.v))]
+DRS = {dt: Retort(recipe=DRECIPE, debug_trail=dt) for dt in DT_MODES}
+D_ITERS = {"List": (List[Stub], list), "list": (list[Stub], list), "TupleVar": (Tuple[Stub, ...], tuple), "Set": (Set[Stub], tuple),
+           "FrozenSet": (FrozenSet[Stub], tuple), "Deque": (Deque[Stub], tuple), "Iterable": (typing.Iterable[Stub], tuple),
+           "Sequence": (typing.Sequence[Stub], tuple), "MutableSequence": (typing.MutableSequence[Stub], tuple), "Collection": (typing.Collection[Stub], tuple)}
+D_UNIONS = {"U_PA_PB_int": (Union[PA, PB, int], (PA, PB, int)), "U_Zeta_Eta": (Union[Zeta, Eta], (Zeta, Eta)), "U_Eta_Zeta": (Union[Eta, Zeta], (Zeta, Eta)),
+            "U_PA_str_none": (Union[PA, str, None], (PA, str, type(None))), "U_PD_PB": (Union[PD, PB], (PD, PB)), "Opt_PB": (Optional[PB], (PB, type(None)))}
+D_TYPES = {}
+for _n, (_t, _f) in D_ITERS.items(): D_TYPES[_n] = _t
+for _n, (_t, _c) in D_UNIONS.items(): D_TYPES[_n] = _t
+D_TYPES["DictK"] = Dict[KStub, Stub]; D_TYPES["Tuple2"] = Tuple[Stub, KStub]
+DD = {(n, dt): r.get_dumper(t) for n, t in D_TYPES.items() for dt, r in DRS.items()}
+OBJ_CLASSES = (PA, PB, PC, PD, Zeta, Eta, EtaSub, Lone)
+TAG_OF = {PA: "PA", PB: "PB", PD: "PD", Zeta: "Zeta", Eta: "Eta"}
+
+def dump_iter(name, xs):
+    """documented outer form: list for list children, tuple for every other iterable; elements dumped in order; the three
+    debug modes agree on success and result; a failing child dumper fails the dump in every mode"""
+    fact = D_ITERS[name][0]
+    origin = {"List": list, "list": list, "TupleVar": tuple, "Set": set, "FrozenSet": frozenset, "Deque": deque}.get(name, list)
+    bug = any(x == -9 for x in xs)
+    for dt in DT_MODES:
+        r = run(DD[(name, dt)], origin(Stub(x) for x in xs))
+        if bug:
+            if r[0]: return False
+            continue
+        if not r[0]: return False
+        if type(r[1]) is not D_ITERS[name][1]: return False
+        if name in ("Set", "FrozenSet"):
+            if sorted(r[1]) != sorted(set(xs)): return False
+        elif list(r[1]) != list(xs): return False
+    return True
+
+def dump_dict_tuple(k, v, w):
+    bug = v == -9
+    for dt in DT_MODES:
+        r = run(DD[("DictK", dt)], {KStub(k): Stub(v)})
+        t = run(DD[("Tuple2", dt)], (Stub(v), KStub(k)))
+        if bug:
+            if r[0] or t[0]: return False
+            continue
+        if not r[0] or r[1] != {k + 7: v} or type(r[1]) is not dict: return False
+        if not t[0] or t[1] != (v, k + 7) or type(t[1]) is not tuple: return False
+    return True
+
+def dump_union(name, osel, v, s):
+    """union dumped by runtime class with nearest-ancestor fallback: the first class of type(obj).__mro__ that is a union case"""
+    cases = D_UNIONS[name][1]
+    osel = pick(osel, len(OBJ_CLASSES) + 3)
+    if osel < len(OBJ_CLASSES): obj = OBJ_CLASSES[osel](v)
+    elif osel == len(OBJ_CLASSES): obj = v
+    elif osel == len(OBJ_CLASSES) + 1: obj = s
+    else: obj = None
+    owner = next((c for c in type(obj).__mro__ if c in cases), None)
+    for dt in DT_MODES:
+        r = run(DD[(name, dt)], obj)
+        if owner is None:
+            if name.startswith("Opt"): continue        # Optional[X] hands every non-None object to X's dumper (no dispatch): caller's error
+            if r[0]: return False
+            continue
+        if not r[0]: return False
+        exp = obj if owner in (int, str, type(None)) else (TAG_OF[owner], v)
+        if r[1] != exp: return False
+    return True
+'''
+
+
+def l2_dump_module(prop: str, tier: str) -> Module:
+    quick = tier == "quick"
+    tmo = 60 if quick else 600
+    m = Module(f"{prop.lower()}_l2dump").pre("import collections, collections.abc, typing\nfrom collections import deque, defaultdict\n").pre(DUMP_SETUP)
+    fam = "L2 dumpers: documented outer form, union dispatch by runtime class, debug-mode agreement"
+    for name in ["List", "list", "TupleVar", "Deque", "Iterable", "Sequence", "MutableSequence", "Collection"]:
+        m.ob(f"dump_{name}", "xs: List[int]", f"return dump_iter({name!r}, xs)", pre=["len(xs) <= 3"], timeout=tmo, family=fam,
+             bounds="len<=3, payloads any int (-9 makes the child dumper raise), 3 debug modes")
+    for name in ["Set", "FrozenSet"]:
+        m.ob(f"dump_{name}", "n: int, c0: int, c1: int, c2: int", f"return dump_iter({name!r}, sel_codes(n, c0, c1, c2))",
+             pre=["0 <= n <= 3", "0 <= c0 <= 6 and 0 <= c1 <= 6 and 0 <= c2 <= 6"], timeout=tmo, family=fam, bounds="<=3 elements by selector")
+    m.ob("dump_dict_tuple", "k: int, v: int, w: int", "return dump_dict_tuple(pick(k, 4), v, w)", pre=["0 <= k <= 3"], timeout=tmo, family=fam,
+         bounds="Dict[K, V] and Tuple[V, K] with key and value dumpers; payload any int")
+    for name in ["U_PA_PB_int", "U_Zeta_Eta", "U_Eta_Zeta", "U_PA_str_none", "U_PD_PB", "Opt_PB"]:
+        m.ob(f"dump_union_{name}", "osel: int, v: int, s: str", f"return dump_union({name!r}, osel, v, s)", pre=["0 <= osel <= 10", "len(s) <= 1"],
+             timeout=tmo, family=fam,
+             bounds="object of 8 classes (3-level hierarchy, siblings, subclass-of-subclass, unrelated) or int / str / None; union case order both ways; payload symbolic")
+    return m
